@@ -15,7 +15,11 @@ var registry = map[string]func(*chk.Run){
 	"C01": checks.C01,
 	"C02": checks.C02,
 	"C05": checks.C05,
+	"C07": checks.C07,
 	"C08": checks.C08,
+	"C09": checks.C09,
+	"C14": checks.C14,
+	"C15": checks.C15,
 	"C06": checks.C06,
 }
 
